@@ -10,12 +10,13 @@ Clauses
   symmetric   H == H.T bitwise
   finite      no NaN/inf
   quadratic   pure quadratics: |H - Q|_jk <= 256 eps sup|f on the reached box| / (hmin_j hmin_k)
-              (multicomplex, which forms no difference: <= 16 eps |Q_jk|)
+              (multicomplex, which forms no difference: <= 64 eps |Q_jk|)
   envelope    |H - exact|_jk <= TOL_H[method|k-bucket] * S_2(j, k) + floor
   hd-quadratic / hd-envelope   the same for Hessdiag(method, order in {2, 4, 6}) with TOL_HD[method|k-bucket]
   consistency |diag(H) - Hessdiag|_j <= K_CONS (est_H_jj + est_diag_j) + floor, asserted when both
               configurations leave >= 2 estimates and reach <= rho_cert/4 (DESIGN C02 / F10)
-floor = 64 eps (|exact| + (n+2) noise / (hmin_j hmin_k))   (second term only for difference-forming rules).
+floor = 64 eps (|exact| + (n+2) (cond + noise / (h_j h_k)) + 4 M(h_f) / (h_j h_k)) with h the reported final
+steps clamped into the generated range (1/h^2 terms only for difference-forming rules).
 """
 import math
 import os
@@ -35,12 +36,12 @@ CALIBRATE = bool(os.environ.get('NVERIF_CALIBRATE'))
 ASSUME_KNOWN = bool(os.environ.get('NVERIF_ASSUME_KNOWN'))
 FLOOR = 64.0
 QUAD_REAL = 256.0
-QUAD_MCX = 16.0
+QUAD_MCX = 64.0
 K_CONS = 1e4
 H_METHODS = ['central', 'central2', 'forward', 'backward', 'complex', 'multicomplex']
 REAL_STEP = ('central', 'central2', 'forward', 'backward')
-# tol[method|k-bucket] (k = number of derivative estimates left after the difference rule; for Hessian the
-# number of generated steps).  Missing key = weak cell: shape, symmetry and finiteness only.
+# tol[method|k-bucket|default or user step configuration] (k = number of derivative estimates left after the
+# difference rule; for Hessian the number of generated steps).  Missing key = weak cell: shape, symmetry and finiteness only.
 TOL_H = {}
 TOL_HD = {}
 KINDS = ('quadratic', 'ridge', 'ridge', 'ridge')
@@ -218,6 +219,11 @@ class C04(Prop):
                             Mv = float(an.majorant(0, (j,), [min(wd * hf, an.reach_limit((j,)), mv.R_CAP)])[0])
                             if math.isfinite(Mv):
                                 floor += FLOOR * EPS * 2.0 * Mv / hf ** 2
+                        else:
+                            # multicomplex: relative rounding of the intermediates' components, eps * S_2
+                            Sv = an.scale(2, 0, (j, j), wd * float(hcol.min()), math.inf)
+                            if Sv is not None and math.isfinite(Sv):
+                                floor += FLOOR * EPS * Sv
                     excess = max(diff - floor, 0.0)
                     r = excess / est if est > 0 else (0.0 if excess == 0 else math.inf)
                     reach = max(hess_width(method) * float(hs[:, j].max()), hd_width(hm) * float(dhs[:, j].max()))
@@ -258,7 +264,9 @@ class C04(Prop):
         diag_only = lib.ndim == 1
         w = hd_width(method) if diag_only else hess_width(method)
         bucket = mv.kbucket(k_est)
-        tol = (TOL_HD if diag_only else TOL_H).get('%s|%s' % (method, bucket))
+        spec = case['hd_step'] if diag_only else case['step']
+        cfg = 'default' if spec['kind'] == 'default' else 'user'
+        tol = (TOL_HD if diag_only else TOL_H).get('%s|%s|%s' % (method, bucket, cfg))
         dform = difference_forming(method)
         hmin, hmax = hs.min(axis=0), hs.max(axis=0)
         bounds = np.full(lib.shape, np.inf)
@@ -267,7 +275,7 @@ class C04(Prop):
                             'certified domain)' % target, target=target, lib=lib)
         if an.wrap is None and np.iscomplexobj(lib) and np.any(np.imag(lib) != 0):
             raise Violation('real', '%s is complex for a real function' % target, target=target)
-        label = '%s|%s|%s' % (target, method, bucket)
+        label = '%s|%s|%s|%s' % (target, method, bucket, cfg)
         pairs = [(j, j) for j in range(n)] if diag_only else [(j, k) for j in range(n) for k in range(j, n)]
         for j, k in pairs:
             lv = lib[j] if diag_only else lib[j, k]
@@ -303,6 +311,11 @@ class C04(Prop):
                     ctx.count('scale unavailable')
                     continue
                 floor = FLOOR * EPS * (abs(ex) + (n + 2) * (an.cond(0, (j, k)) + (an.noise(0) / hf if dform else 0.0)))
+                if dform and fstep is not None:
+                    # rounding of the (up to four) function values at the reported steps: eps |values| / (h_j h_k)
+                    Mf = float(an.majorant(0, (j, k), [min(w * math.sqrt(hf), an.reach_limit((j, k)), mv.R_CAP)])[0])
+                    if math.isfinite(Mf):
+                        floor += FLOOR * EPS * 4.0 * Mf / hf
                 excess = max(err - floor, 0.0)
                 ratio = excess / S if S > 0 else (0.0 if excess == 0 else math.inf)
                 ctx.track('err/S2|%s%s' % (label, self._kc if method == 'multicomplex' else ''), ratio,
